@@ -128,8 +128,10 @@ class CollectionPipelineRule(BaseLintRule):  # thailint: ignore[srp,dry]
             return CollectionPipelineConfig()
 
         # Check for collection_pipeline or collection-pipeline specific config
+        # "pipeline" is the section name used by the generated config template
         linter_config = config_dict.get(
-            "collection_pipeline", config_dict.get("collection-pipeline", config_dict)
+            "collection_pipeline",
+            config_dict.get("collection-pipeline", config_dict.get("pipeline", config_dict)),
         )
         return CollectionPipelineConfig.from_dict(linter_config)
 
